@@ -1,4 +1,294 @@
-import BiotiteModel.Model.C17
+import BiotiteModel.Proofs.C17Seg
+import BiotiteModel.Proofs.C17Graph
+import BiotiteModel.Gen.C17
+/-!
+# C17 — property theorems (residue / chain / molecule segmentation = per-atom recomputation)
+
+Only property statements and non-vacuity examples; helper lemmas are in `Proofs/C17Seg.lean`
+and `Proofs/C17Graph.lean`; the per-atom vocabulary (`isStart`, `segStartP`, `segEndP`,
+`sameSegP`, `posP`) is in `Model/C17Spec.lean`.  Every theorem quantifies over all atom
+arrays / index arrays / functions / bond graphs (no size bound).
+-/
 namespace BiotiteModel.C17
-theorem C17_stub : True := trivial
+
+/-- The boundary relations are the ones of the property statement: a residue boundary is a
+change of chain id, residue id, insertion code or residue name; a chain boundary is a change
+of chain id or a decrease of the residue id. -/
+theorem C17_boundaries (a c : Atom) :
+    (resBoundary a c = true ↔ (c.chain ≠ a.chain ∨ c.res ≠ a.res ∨ c.ins ≠ a.ins ∨ c.name ≠ a.name)) ∧
+    (chainBoundary a c = true ↔ (c.chain ≠ a.chain ∨ c.res < a.res)) := by
+  simp only [resBoundary, chainBoundary, Bool.or_eq_true, bne_iff_ne, decide_eq_true_eq, ne_eq]
+  constructor
+  · constructor
+    · rintro (((h | h) | h) | h) <;> simp [h]
+    · rintro (h | h | h | h) <;> simp [h]
+  · constructor
+    · rintro (h | h) <;> simp [h]
+    · rintro (h | h) <;> simp [h]
+
+/-- **Starts are exactly the per-atom boundaries**: ascending, `j` is listed iff atom `j`
+exists and is the first atom or differs from atom `j-1` by the boundary relation; the
+exclusive stop is the array length (also for an empty array, after the `fix:` commits). -/
+theorem C17_starts_exact (k : Kind) (xs : List Atom) :
+    (k.starts xs false).Pairwise (· < ·) ∧
+    (∀ j, j ∈ k.starts xs false ↔ k.isStart xs j = true) ∧
+    k.starts xs false = (List.range xs.length).filter (k.isStart xs) ∧
+    k.starts xs true = k.starts xs false ++ [xs.length] := by
+  have h : k.starts xs false = (List.range xs.length).filter (k.isStart xs) := by
+    rw [Kind.starts_eq, startsOf_eq_filter]
+  refine ⟨?_, ?_, h, ?_⟩
+  · rw [h]; exact List.Pairwise.filter _ List.pairwise_lt_range
+  · intro j
+    rw [h, List.mem_filter, List.mem_range]
+    exact ⟨fun hj => hj.2, fun hj => ⟨isStart_lt _ _ _ hj, hj⟩⟩
+  · rw [Kind.starts_eq, Kind.starts_eq, startsOf_stop]
+
+/-- **Iteration partitions the array**: concatenating the iterated segments gives the data
+back; there is one segment per start; segment `s` is the slice from `s` to the next start
+(or the end); it is non-empty; no atom strictly inside it starts a segment and the atom after
+it does. -/
+theorem C17_partition {β : Type} (k : Kind) (xs : List Atom) (data : List β) (hlen : data.length = xs.length) :
+    (segIter (k.starts xs true) data).flatten = data ∧
+    segIter (k.starts xs true) data =
+      (k.starts xs false).map (fun s => slice data s (segEndP (k.isStart xs) xs.length s)) ∧
+    (∀ seg ∈ segIter (k.starts xs true) data, seg ≠ []) ∧
+    (∀ s ∈ k.starts xs false,
+        s < segEndP (k.isStart xs) xs.length s ∧ segEndP (k.isStart xs) xs.length s ≤ xs.length ∧
+        (∀ j, s < j → j < segEndP (k.isStart xs) xs.length s → k.isStart xs j = false) ∧
+        (segEndP (k.isStart xs) xs.length s < xs.length →
+          k.isStart xs (segEndP (k.isStart xs) xs.length s) = true)) := by
+  have hf := (C17_starts_exact k xs).2.2.1
+  rw [Kind.starts_true, hf]
+  refine ⟨?_, segIter_filter _ _ _, segIter_nonempty _ _ _ hlen, ?_⟩
+  · cases xs with
+    | nil => simp at hlen; subst hlen; simp [segIter]
+    | cons x xs => exact segIter_flatten _ _ (Kind.isStart_zero k _ (by simp)) _ hlen
+  · intro s hs
+    simp only [List.mem_filter, List.mem_range] at hs
+    have e := segEndP_spec (k.isStart xs) xs.length s hs.1
+    exact ⟨e.1, e.2.1, e.2.2.2, e.2.2.1⟩
+
+/-- Inside a residue all four annotations are constant. -/
+theorem C17_residue_constant (xs : List Atom) :
+    ∀ seg ∈ segIter (residueStarts xs true) xs, ∀ a ∈ seg, ∀ c ∈ seg, a = c := by
+  intro seg hseg
+  have hp := C17_partition Kind.residue xs xs rfl
+  have hmem : seg ∈ segIter (Kind.residue.starts xs true) xs := hseg
+  rw [hp.2.1] at hmem
+  simp only [List.mem_map] at hmem
+  obtain ⟨s, hs, rfl⟩ := hmem
+  have hb := hp.2.2.2 s hs
+  -- every atom of the slice equals atom `s`
+  have key : ∀ t, s + t < segEndP (Kind.residue.isStart xs) xs.length s → xs[s + t]? = xs[s]? := by
+    intro t
+    induction t with
+    | zero => intro _; rfl
+    | succ t ih =>
+      intro ht
+      rw [← ih (by omega)]
+      have hns := hb.2.2.1 (s + (t + 1)) (by omega) ht
+      have hlt : s + (t + 1) < xs.length := by omega
+      simp only [Kind.isStart, C17.isStart, hlt, decide_true, Bool.true_and, Bool.or_eq_false_iff] at hns
+      have h1 : s + (t + 1) - 1 = s + t := by omega
+      rw [h1, List.getElem?_eq_getElem hlt, List.getElem?_eq_getElem (show s + t < xs.length by omega)] at hns
+      have hbd := hns.2
+      simp only [Kind.boundary] at hbd
+      have hnb := (C17_boundaries xs[s + t] xs[s + (t + 1)]).1
+      rw [List.getElem?_eq_getElem hlt, List.getElem?_eq_getElem (show s + t < xs.length by omega)]
+      have : ¬ (xs[s + (t + 1)].chain ≠ xs[s + t].chain ∨ xs[s + (t + 1)].res ≠ xs[s + t].res ∨
+          xs[s + (t + 1)].ins ≠ xs[s + t].ins ∨ xs[s + (t + 1)].name ≠ xs[s + t].name) := by
+        intro h; rw [← hnb] at h; simp [hbd] at h
+      simp only [ne_eq, not_or, Decidable.not_not] at this
+      congr 1
+      cases hx : xs[s + (t + 1)]; cases hy : xs[s + t]
+      simp_all
+  have all_eq : ∀ a ∈ slice xs s (segEndP (Kind.residue.isStart xs) xs.length s), some a = xs[s]? := by
+    intro a ha
+    simp only [slice] at ha
+    obtain ⟨t, ht, rfl⟩ := List.mem_iff_getElem.1 ha
+    simp only [List.length_drop, List.length_take] at ht
+    rw [← key t (by omega)]
+    simp [List.getElem_drop, List.getElem_take]
+  intro a ha c hc
+  have h1 := all_eq a ha
+  have h2 := all_eq c hc
+  rw [← h2] at h1
+  exact Option.some.inj h1
+
+/-- **Indices are validated**: a negative or out-of-range index makes every index view raise
+`ValueError` (for every array, including the empty one). -/
+theorem C17_index_rejection (k : Kind) (xs : List Atom) (idx : List Int)
+    (h : ∃ i ∈ idx, i < 0 ∨ (xs.length : Int) ≤ i) :
+    segMasks (k.starts xs true) idx = .error .valueError ∧
+    segStartsFor (k.starts xs true) idx = .error .valueError ∧
+    segPositions (k.starts xs true) idx = .error .valueError := by
+  rw [Kind.starts_true]; exact seg_views_reject _ _ _ h
+
+/-- **`get_*_starts_for`** = per-atom walk back to the nearest segment start
+(`segStartP_spec`: it is a start, `≤ i`, and no start lies after it up to `i`). -/
+theorem C17_starts_for (k : Kind) (xs : List Atom) (idx : List Int)
+    (h : ∀ i ∈ idx, 0 ≤ i ∧ i < (xs.length : Int)) :
+    segStartsFor (k.starts xs true) idx = .ok (idx.map (fun i => segStartP (k.isStart xs) i.toNat)) ∧
+    ∀ i ∈ idx, k.isStart xs (segStartP (k.isStart xs) i.toNat) = true ∧
+      segStartP (k.isStart xs) i.toNat ≤ i.toNat ∧
+      ∀ j, segStartP (k.isStart xs) i.toNat < j → j ≤ i.toNat → k.isStart xs j = false := by
+  rw [Kind.starts_true]
+  by_cases hne : idx = []
+  · subst hne; refine ⟨?_, by simp⟩; unfold segStartsFor; rw [getLast?_withStop]; rfl
+  · have hP0 := Kind.isStart_zero k xs (ne_nil_of_valid h hne)
+    exact ⟨segStartsFor_filter _ _ hP0 _ h, fun i _ => segStartP_spec _ hP0 _⟩
+
+/-- **`get_*_positions`** = the number of segment starts among atoms `1..i`, and the start
+array at that position is the start of `i`'s segment. -/
+theorem C17_positions (k : Kind) (xs : List Atom) (idx : List Int)
+    (h : ∀ i ∈ idx, 0 ≤ i ∧ i < (xs.length : Int)) :
+    segPositions (k.starts xs true) idx = .ok (idx.map (fun i => (posP (k.isStart xs) i.toNat : Int))) ∧
+    ∀ i ∈ idx, (k.starts xs false)[posP (k.isStart xs) i.toNat]? = some (segStartP (k.isStart xs) i.toNat) := by
+  rw [Kind.starts_true, (C17_starts_exact k xs).2.2.1]
+  by_cases hne : idx = []
+  · subst hne; refine ⟨?_, by simp⟩; unfold segPositions; rw [getLast?_withStop]; rfl
+  · have hP0 := Kind.isStart_zero k xs (ne_nil_of_valid h hne)
+    refine ⟨segPositions_filter _ _ hP0 _ h, fun i hi => ?_⟩
+    have hlt := toNat_lt (h i hi)
+    have := starts_getElem_head _ hP0 xs.length i.toNat hlt []
+    rw [List.append_nil, headStarts_length _ hP0] at this
+    simpa using this
+
+/-- **`get_*_masks`**: row `t` is `True` exactly at the atoms `k` in the same segment as
+`idx[t]`, i.e. with no segment start between the two atoms. -/
+theorem C17_masks (k : Kind) (xs : List Atom) (idx : List Int)
+    (h : ∀ i ∈ idx, 0 ≤ i ∧ i < (xs.length : Int)) :
+    ∃ rows, segMasks (k.starts xs true) idx = .ok rows ∧ rows.length = idx.length ∧
+      ∀ (t : Nat) (i : Int), idx[t]? = some i → ∃ row : List Bool, rows[t]? = some row ∧ row.length = xs.length ∧
+        ∀ a, a < xs.length → (row[a]? = some true ↔ sameSegP (k.isStart xs) i.toNat a) ∧
+                              (row[a]? = some false ↔ ¬ sameSegP (k.isStart xs) i.toNat a) := by
+  rw [Kind.starts_true]
+  by_cases hne : idx = []
+  · subst hne; refine ⟨[], ?_, rfl, by simp⟩; unfold segMasks; rw [getLast?_withStop]; rfl
+  · have hP0 := Kind.isStart_zero k xs (ne_nil_of_valid h hne)
+    refine ⟨_, segMasks_filter _ _ hP0 _ h, by simp, fun t i hti => ?_⟩
+    have hi := h i (List.mem_of_getElem? hti)
+    have hlt := toNat_lt hi
+    refine ⟨_, by rw [List.getElem?_map, hti]; rfl, by simp, fun a ha => ?_⟩
+    have hiff := inSeg_iff_sameSeg _ hP0 xs.length i.toNat a hlt ha
+    simp only [List.getElem?_map, List.getElem?_range ha, Option.map_some, Option.some.injEq,
+      decide_eq_true_eq, decide_eq_false_iff_not]
+    exact ⟨hiff, not_congr hiff⟩
+
+/-- **`spread ∘ apply`**: for every function `f` (scalar- or array-valued) atom `i` receives
+`f` of its own segment, the slice between the per-atom walk back (`segStartP`) and the
+per-atom walk forward (`segEndP`). Holds for the empty array too (empty result). -/
+theorem C17_spread_apply {α β : Type} (k : Kind) (xs : List Atom) (f : List α → β) (data : List α) :
+    ∃ out, spreadSeg (k.starts xs true) (applySeg (k.starts xs true) f data) = .ok out ∧
+      out.length = xs.length ∧
+      ∀ i, i < xs.length →
+        out[i]? = some (f (slice data (segStartP (k.isStart xs) i) (segEndP (k.isStart xs) xs.length i))) := by
+  rw [Kind.starts_true]
+  cases hx : xs with
+  | nil => exact ⟨[], by simp [spreadSeg, applySeg, segIter], rfl, by simp⟩
+  | cons x xs' =>
+    rw [← hx]
+    exact spread_apply_filter _ _ (Kind.isStart_zero k xs (by simp [hx])) f data
+
+/-- **`apply`** yields one value per segment (so `[]`, not `None`, for an empty array) and
+**`spread`** puts the value given for a segment on each of its atoms. -/
+theorem C17_apply_spread {α β : Type} (k : Kind) (xs : List Atom) (f : List α → β) (data : List α)
+    (v : Nat → β) :
+    applySeg (k.starts xs true) f data =
+      (k.starts xs false).map (fun s => f (slice data s (segEndP (k.isStart xs) xs.length s))) ∧
+    ∃ out, spreadSeg (k.starts xs true) ((k.starts xs false).map v) = .ok out ∧ out.length = xs.length ∧
+      ∀ i, i < xs.length → out[i]? = some (v (segStartP (k.isStart xs) i)) := by
+  rw [Kind.starts_true, (C17_starts_exact k xs).2.2.1]
+  refine ⟨applySeg_filter _ _ _ _, ?_⟩
+  cases hx : xs with
+  | nil => exact ⟨[], by simp [spreadSeg], rfl, by simp⟩
+  | cons x xs' =>
+    rw [← hx]
+    exact spread_filter _ _ (Kind.isStart_zero k xs (by simp [hx])) v
+
+/-! ## molecules -/
+
+/-- **`find_connected`** — the recursive DFS of `_find_connected`, with recursion depth at
+most `n`, terminates and returns exactly the atoms reachable from the root, ascending. -/
+theorem C17_connected (n : Nat) (adj : Nat → List Nat) (r : Nat) (hwf : WF n adj) (hr : r < n)
+    (h32 : n ≤ 4294967296) :
+    (∃ m, connectedMask n adj r = some m ∧ m.length = n ∧ ∀ v, m[v]? = some true ↔ Reach adj r v) ∧
+    (∃ l, findConnected n adj (r : Int) = .ok l ∧ l.Pairwise (· < ·) ∧ ∀ v, v ∈ l ↔ Reach adj r v) :=
+  ⟨connectedMask_spec n adj r hwf hr, findConnected_spec n adj r hwf hr h32⟩
+
+/-- invalid roots are rejected -/
+theorem C17_connected_rejects (n : Nat) (adj : Nat → List Nat) (root : Int) :
+    (root < 0 → findConnected n adj root = .error .overflowError) ∧
+    (0 ≤ root → root < 4294967296 → (n : Int) ≤ root → findConnected n adj root = .error .valueError) :=
+  findConnected_rejects n adj root
+
+/-- **`get_molecule_indices`** terminates within `n` iterations and returns exactly the
+connected components of the bond graph: non-empty ascending index lists, pairwise disjoint,
+covering every atom, each the full reachability class of each of its members. -/
+theorem C17_molecules (n : Nat) (adj : Nat → List Nat) (hwf : WF n adj) (hsym : Symm n adj) :
+    ∃ comps, moleculeIndices n adj = some comps ∧
+      (∀ c ∈ comps, c ≠ [] ∧ c.Pairwise (· < ·)) ∧
+      (∀ v, v < n → ∃ c ∈ comps, v ∈ c) ∧
+      comps.Pairwise (fun a b => ∀ v, v ∈ a → v ∉ b) ∧
+      (∀ c ∈ comps, ∀ u ∈ c, ∀ v, v ∈ c ↔ Reach adj u v) :=
+  moleculeIndices_spec n adj hwf hsym
+
+/-- The table `get_all_bonds` builds from a bond list with in-range indices satisfies the
+hypotheses of the two theorems above. -/
+theorem C17_bond_table (n : Nat) (bonds : List (Nat × Nat)) (h : ∀ b ∈ bonds, b.1 < n ∧ b.2 < n) :
+    WF n (neighbours bonds) ∧ Symm n (neighbours bonds) ∧
+    ∀ v w, w ∈ neighbours bonds v ↔ (v, w) ∈ bonds ∨ (w, v) ∈ bonds :=
+  ⟨neighbours_wf n bonds h, neighbours_symm n bonds, neighbours_mem bonds⟩
+
+/-- **Why long chains crash the real code** (known finding `C17/find_connected/recursion-depth-crash`):
+on a linear chain of `n` atoms the recursion really nests `n` deep — one level less does
+not finish.  The model's fuel is the C recursion depth; the C stack is finite. -/
+theorem C17_chain_recursion_depth (n : Nat) (hn : 0 < n) :
+    visit (chainAdj n) (n - 1) 0 (List.replicate n false) = none ∧
+    ∃ m, visit (chainAdj n) n 0 (List.replicate n false) = some m := by
+  refine ⟨chain_needs_full_depth n hn, ?_⟩
+  have hwf : WF n (chainAdj n) := by
+    intro v hv w hw
+    simp only [chainAdj, List.mem_append] at hw
+    rcases hw with hw | hw
+    · split at hw <;> simp at hw; omega
+    · split at hw <;> simp at hw; omega
+  obtain ⟨m, hm, _⟩ := connectedMask_spec n (chainAdj n) 0 hwf hn
+  exact ⟨m, hm⟩
+
+/-! ## regenerated from the source (Gen/C17.lean) -/
+
+/-- The annotations `get_residue_starts` compares are the four of the property statement, the
+chain test is `diff(res_id) < 0` or a chain id change, the empty-array return is `[]` / `[0]`,
+all three index views use `searchsorted(side="right") - 1` and carry both guards. -/
+theorem C17_gen_tables :
+    Gen.C17.residueFields.isPerm ["chain_id", "res_id", "ins_code", "res_name"] = true ∧
+    Gen.C17.chainTerms.isPerm ["chain_id", "diff:res_id:Lt:0"] = true ∧
+    Gen.C17.emptyReturns = [([], [0]), ([], [0])] ∧
+    Gen.C17.searchSides.map (fun x => (x.2.1, x.2.2)) = [("right", "1"), ("right", "1"), ("right", "1")] ∧
+    Gen.C17.guards.map (·.2) = List.replicate 3 [("Lt 0", "ValueError"), ("GtE starts[-1]", "ValueError")] := by
+  decide
+
+/-! ## non-vacuity -/
+
+private def ex : List Atom :=
+  [⟨0, 1, 0, 0⟩, ⟨0, 1, 0, 0⟩, ⟨0, 2, 0, 0⟩, ⟨1, 2, 0, 0⟩, ⟨1, 1, 0, 0⟩, ⟨1, 1, 1, 0⟩]
+
+example : residueStarts ex true = [0, 2, 3, 4, 5, 6] ∧ chainStarts ex true = [0, 3, 4, 6] := by decide
+example : residueStarts [] true = [0] ∧ residueStarts [] false = [] := by decide
+example : segIter (chainStarts ex true) [10, 11, 12, 13, 14, 15] = [[10, 11, 12], [13], [14, 15]] := by decide
+example : segMasks (chainStarts ex true) [4] = .ok [[false, false, false, false, true, true]] := by decide
+example : segStartsFor (residueStarts ex true) [1, 5] = .ok [0, 5] ∧
+    segPositions (residueStarts ex true) [1, 5] = .ok [0, 4] := by decide
+example : segMasks (residueStarts ex true) [6] = .error .valueError ∧
+    segMasks (residueStarts [] true) [0] = .error .valueError := by decide
+example : spreadSeg (chainStarts ex true) (applySeg (chainStarts ex true) List.sum [1, 2, 3, 4, 5, 6]) =
+    .ok [6, 6, 6, 4, 11, 11] := by decide
+example : applySeg (residueStarts [] true) List.sum ([] : List Nat) = [] := by decide
+example : findConnected 5 (neighbours [(0, 1), (3, 1), (2, 4)]) 3 = .ok [0, 1, 3] := by decide
+example : moleculeIndices 5 (neighbours [(0, 1), (3, 1), (2, 4)]) = some [[0, 1, 3], [2, 4]] := by decide
+example : WF 5 (neighbours [(0, 1), (3, 1), (2, 4)]) := neighbours_wf 5 _ (by decide)
+example : segStartP (Kind.chain.isStart ex) 5 = 4 ∧ segEndP (Kind.chain.isStart ex) 6 3 = 4 ∧
+    posP (Kind.chain.isStart ex) 5 = 2 := by decide
+
 end BiotiteModel.C17
